@@ -197,7 +197,11 @@ class Engine:
     def enum_info(self, tyname):
         base = tyname.split("::")[-1]
         base = re.sub(r"<.*$", "", base)
+        if base == "Level" and tyname.startswith("log::"):
+            return EnumInfo("log::Level", ["Error", "Warn", "Info", "Debug", "Trace"], [1, 2, 3, 4, 5])
         if base in rustsrc.BUILTIN_ENUMS:
+            if base == "Level" and "log" in tyname:
+                return EnumInfo("log::Level", ["Error", "Warn", "Info", "Debug", "Trace"], [1, 2, 3, 4, 5])
             if base == "Ordering" and "atomic" in tyname:
                 return EnumInfo("AtomicOrdering", ["Relaxed", "Release", "Acquire", "AcqRel", "SeqCst"])
             if base == "Ordering":
@@ -239,6 +243,8 @@ class Engine:
             return False
         base = ty.base
         if base in rustsrc.BUILTIN_ENUMS:
+            return True
+        if base == "Level" and ty.name.startswith("log::"):
             return True
         c = self.adts.get(base, [])
         return bool(c) and all(a.kind == "enum" for a in c)
@@ -703,6 +709,8 @@ class Engine:
         if c.startswith('"'):
             lit = c[1 : c.rindex('"')]
             return self.str_lit(lit)
+        if c.startswith('b"'):
+            return VOpaque("byte string literal")
         if c.startswith("'"):
             ch = c[1:-1]
             if len(ch) == 1:
@@ -718,7 +726,13 @@ class Engine:
             return UNIT if t.kind != "adt" else VStruct((), t.name)
         if c in self._const_cache:
             return self._const_cache[c]
-        v = self._named_const(c, body)
+        try:
+            v = self._named_const(c, body)
+        except SymError as e:
+            if re.match(r"^<?(tracing|tracing_core|log)::", c) or "__CALLSITE" in c or "tracing::" in str(e) or "tracing_core::" in str(e):
+                v = VOpaque("tracing constant " + c[:60])  # logging metadata never influences a verdict (a branch on it is an error)
+            else:
+                raise
         self._const_cache[c] = v
         return v
 
@@ -735,6 +749,18 @@ class Engine:
         key = re.sub(r"::<[^>]*>", "", c)
         if key in STD_CONSTS:
             return STD_CONSTS[key](self)
+        # constant unit variant of an enum:  path::Enum::<T>::Variant
+        segs0 = _split_path(c)
+        if len(segs0) >= 2:
+            ename, vname = segs0[-2], segs0[-1]
+            try:
+                if ename in rustsrc.BUILTIN_ENUMS or any(a.kind == "enum" for a in self.adts.get(ename, [])):
+                    info = self.enum_info("::".join(segs0[:-1]))
+                    if vname in info.variants:
+                        vi = info.index(vname)
+                        return VEnum(info, bv(vi, 8), {vi: ()})
+            except SymError:
+                pass
         # crate-level const / promoted
         name = key
         cands = []
